@@ -3,7 +3,9 @@
 // Every case is a script of operations on the real core running in-process over the simulated
 // Mesos master of internal/simcore: environments are created, started, destroyed (normally,
 // keeping the tasks, or with the KILLs left unanswered = stopped in the middle of a teardown),
-// tasks die, the master connection is dropped and re-established, the core crashes (idle, or
+// tasks die or are declared lost while the master keeps them, an environment creation is held in
+// the launch window (tasks accepted and in the roster, first TASK_RUNNING withheld) and a
+// reconnection / restart happens there, the master connection is dropped and re-established, the core crashes (idle, or
 // while an environment creation stands before the launch / after the launch / in the middle of
 // CONFIGURE) and the persisted framework id is tampered with.  After every operation the harness
 // records what the master saw (SUBSCRIBE framework ids, RECONCILE, KILL calls), which tasks are
@@ -894,8 +896,18 @@ func corpus() []inputJ {
 	c := func(ops ...opJ) inputJ { return inputJ{Failover: true, Ops: ops} }
 	cr := func(p string, k int) opJ { return opJ{Op: "crash", P: p, K: k} }
 	mk := func(k int) opJ { return opJ{Op: "create", K: k} }
+	hold := func(k, s int) opJ { return opJ{Op: "hold", K: k, S: s} }
+	run := func(t int) opJ { return opJ{Op: "run", T: t} }
 	return []inputJ{
-		c(mk(1), op("reconnect")),                                     // C18-a regression witness: the task must survive
+		c(mk(1), op("reconnect")), // C18-a regression witness: the task must survive
+		// roster tasks of a live environment that are not ACTIVE while the master has them alive
+		// (the reconciliation rule spares what is in the roster, whatever its status):
+		c(hold(2, 6), op("reconnect"), run(0), run(1)),                             // launch window, tasks STAGING at the master
+		c(hold(2, 0), op("reconnect"), run(0), run(1), opJ{Op: "start", E: 0}),     // ... STARTING, update still on its way
+		c(hold(1, 1), op("reconnect"), run(0)),                                     // ... RUNNING: the answer activates the task
+		c(mk(2), opJ{Op: "lost", T: 1}, op("reconnect"), opJ{Op: "destroy", E: 0}), // TASK_LOST, the master still has the task
+		c(hold(2, 6), cr("idle", 0)),                                               // restart in the launch window
+		c(hold(2, 0), op("reconnect"), cr("idle", 0)),
 		c(mk(2), opJ{Op: "start", E: 0}, op("reconnect")),             // RUNNING environment, reconnection
 		c(mk(2), cr("idle", 0)),                                       // crash, CONFIGURED
 		c(mk(2), opJ{Op: "start", E: 0}, cr("idle", 0)),               // crash, RUNNING
@@ -951,7 +963,46 @@ func genScript(r *gen.Rand) inputJ {
 			return r.Intn(envs + 1) // possibly one that does not exist
 		}
 		switch {
-		case x < 22 || (i == 0 && x < 70):
+		case x < 9 || (i == 0 && x < 20):
+			// launch window: creation held before the first TASK_RUNNING, the master's view of the tasks
+			// possibly moved on, then a reconnection and/or a restart THERE, then the reports arrive
+			k := r.Range(1, 3)
+			in.Ops = append(in.Ops, opJ{Op: "hold", K: k, S: []int{6, 6, 0, 0, 1}[r.Intn(5)]})
+			first := tasks
+			envs++
+			tasks += k
+			if r.Chance(1, 4) {
+				in.Ops = append(in.Ops, opJ{Op: "mstate", T: first + r.Intn(k), S: []int{0, 1, 8}[r.Intn(3)]})
+			}
+			crashed := false
+			switch y := r.Intn(10); {
+			case y < 6:
+				in.Ops = append(in.Ops, op("reconnect"))
+			case y < 8:
+				in.Ops = append(in.Ops, opJ{Op: "crash", P: "idle"})
+				crashed = true
+			case y < 9:
+				in.Ops = append(in.Ops, op("reconnect"), opJ{Op: "crash", P: "idle"})
+				crashed = true
+			default:
+				in.Ops = append(in.Ops, op("reconnect"), op("reconnect"))
+			}
+			if !crashed {
+				for t := first; t < first+k; t++ {
+					in.Ops = append(in.Ops, opJ{Op: "run", T: t})
+				}
+			}
+		case x < 13 && tasks > 0:
+			// the master declares a task lost but keeps it; mostly a reconnection follows
+			t := r.Intn(tasks)
+			in.Ops = append(in.Ops, opJ{Op: "lost", T: t})
+			if r.Chance(2, 3) {
+				in.Ops = append(in.Ops, op("reconnect"))
+			}
+			if r.Chance(1, 3) {
+				in.Ops = append(in.Ops, opJ{Op: "run", T: t})
+			}
+		case x < 27 || (i == 0 && x < 70):
 			k := r.Range(1, 3)
 			in.Ops = append(in.Ops, opJ{Op: "create", K: k})
 			envs++
